@@ -202,7 +202,7 @@ def run_shard(spec, tier, seed, budget_s):
             check(sh, doc, f'{seed}-{j}-{s}', 'product')
     rng = random.Random(f'{seed}-c15-{i}')
     k = 0
-    target = {'quick': 70, 'thorough': 2500}[tier]
+    target = {'quick': 200, 'thorough': 3000}[tier]
     while k < target and not sh.out_of_time():
         k += 1
         props = rng.random() < 0.5
